@@ -30,6 +30,11 @@ CLAIMED = {
     note="Trusted: Coq kernel (axiom-free; tag injectivity is an explicit hypothesis, CRC32 is not injective in general); file mtimes advance per edit (os.utime); kernel templates are not edited in the real runs; harness/c17.py.",
     technique="Coq proof (state-machine invariant over all histories) + real history correspondence",
     design="DESIGN.md §3 C17"),
+ "C11": dict(
+    text="Coq theorem for every number type (binary64 included): a kernel call that starts at mesh position 0 and covers the mesh returns the same result buffer after ANY history of other calls as on a fresh object (C11_history_independent, a corollary of the C01 chunk theorem: every slot read is first overwritten), plus the dictionary model of call_Fq (caller's dict unchanged; the popping version refuted). Tied to the code by random operation histories in one process - make_kernel, call_kernel, call_Fq, DirectModel, SasviewModel setParam/evalDistribution/clone, release, reload over compiled, Python, P@S and mixture models, dispersity and magnetism toggled - each evaluation compared BIT-FOR-BIT with the same request made first in a fresh process, and every argument object deep-compared before/after.",
+    note="Trusted: Coq kernel (axiom-free theorems); the state of Python-level caches (class-level compiled model, module caches) is covered by the differential run only; harness/c11.py.",
+    technique="Coq proof (generic over the carrier) + fresh-process differential histories",
+    design="DESIGN.md §3 C11"),
 }
 NA_REASON = "check not built yet in this session (planned, see DESIGN.md §7)"
 
